@@ -86,6 +86,7 @@ type PathState struct {
 	dom       map[*Term]*byteSet
 	tainted   map[*Term]bool
 	taintSeen map[*Term]bool
+	synthNow  uint64
 }
 
 func newPathState() *PathState {
